@@ -58,10 +58,13 @@ def op_set_caption(sim: Sim, a) -> str:
     si, ti, tm, table = sim.pick_table(ds, a["s"], a["t"])
     if "text" in a:
         tm.caption = a["text"]
+        tm.caption_real = True
         if sim.real:
             table.caption = a["text"]
     if "enabled" in a:
-        tm.caption_enabled = bool(a["enabled"])
+        # a loaded table that never had a caption carries a stand-in object: the library reports its caption as not
+        # enabled whatever is set (on the open document and after reopening alike), until a caption text is set
+        tm.caption_enabled = bool(a["enabled"]) if tm.__dict__.get("caption_real", True) else None
         if sim.real:
             table.caption_enabled = bool(a["enabled"])
     if "name_enabled" in a:
